@@ -226,8 +226,9 @@ func c18judge(r *c18result, resolved map[string]bool) {
 		return
 	}
 
-	// TLS name
-	if exp.TLSName != "" && c18kind(exp.TLSName) != "literal" {
+	// TLS name (when the only connect was refused and nothing was retried there is no handshake to judge)
+	refusedOnly := r.Cfg.Via == "refuse-first" && r.Exchange != "ok" && len(r.Handshake) == 0
+	if exp.TLSName != "" && c18kind(exp.TLSName) != "literal" && !refusedOnly {
 		ipName := c18kind(exp.TLSName) == "ipv4" || c18kind(exp.TLSName) == "ipv6"
 		hello, verified := 0, false
 		for _, h := range r.Handshake {
@@ -390,7 +391,7 @@ func c18spaceFor(tier string) c18space {
 		ports:   []string{"", "53", "5353", "65535", "65536", "65589"},
 		dials:   []string{"", "192.0.2.7", "192.0.2.7:8853", "2001:db8::7", "[2001:db8::7]:8853", "dial.example.net", "dial.example.net:8853"},
 		paths:   []string{"", "/dns-query"},
-		vias:    []string{"", "socks5", "bootstrap"},
+		vias:    []string{"", "socks5", "bootstrap", "refuse-first"},
 	}
 	if tier == "thorough" {
 		sp.schemes = append(sp.schemes, "ftp")
